@@ -157,16 +157,14 @@ example : ((reapAll (run { pendingLimit := 10, waitingLimit := 10 }
 
 /-! ### the FIFO mempool (gemmill/mempool) -/
 
-namespace FifoProps
-open AnnVerif.Fifo
 
 inductive FOp where
   | recv (t : Nat)
   | update (block : List Nat)
 
-def fstep (m : Mem) : FOp → Mem
-  | .recv t => (receive m t).1
-  | .update b => update {} m b
+def fstep (m : Fifo.Mem) : FOp → Fifo.Mem
+  | .recv t => (Fifo.receive m t).1
+  | .update b => Fifo.update {} m b
 
 /-- the transactions contained in the blocks committed along a sequence -/
 def committedIn : List FOp → List Nat
@@ -175,14 +173,14 @@ def committedIn : List FOp → List Nat
   | .update b :: r => b ++ committedIn r
 
 /-- what holds in every state: no transaction twice in the list, the list is within the cache -/
-structure FInv (m : Mem) : Prop where
+structure FInv (m : Fifo.Mem) : Prop where
   nodup : m.txs.Nodup
   cached : ∀ t ∈ m.txs, t ∈ m.cache
 
-theorem fstep_inv (m : Mem) (op : FOp) (h : FInv m) : FInv (fstep m op) := by
+theorem fstep_inv (m : Fifo.Mem) (op : FOp) (h : FInv m) : FInv (fstep m op) := by
   cases op with
   | recv t =>
-    simp only [fstep, receive]
+    simp only [fstep, Fifo.receive]
     split
     · exact h
     · rename_i hc
@@ -200,7 +198,7 @@ theorem fstep_inv (m : Mem) (op : FOp) (h : FInv m) : FInv (fstep m op) := by
         · exact Or.inl (h.cached x hx)
         · exact Or.inr hx
   | update b =>
-    simp only [fstep, update]
+    simp only [fstep, Fifo.update]
     refine ⟨h.nodup.filter _, ?_⟩
     intro x hx
     have := (List.mem_filter.mp hx).1
@@ -208,13 +206,13 @@ theorem fstep_inv (m : Mem) (op : FOp) (h : FInv m) : FInv (fstep m op) := by
     exact Or.inl (h.cached x this)
 
 /-- G: everything committed so far is in the cache and not in the list -/
-def Gone (c : List Nat) (m : Mem) : Prop := ∀ t ∈ c, t ∈ m.cache ∧ t ∉ m.txs
+def Gone (c : List Nat) (m : Fifo.Mem) : Prop := ∀ t ∈ c, t ∈ m.cache ∧ t ∉ m.txs
 
-theorem fstep_gone (m : Mem) (op : FOp) (c : List Nat) (hg : Gone c m) :
+theorem fstep_gone (m : Fifo.Mem) (op : FOp) (c : List Nat) (hg : Gone c m) :
     Gone (c ++ committedIn [op]) (fstep m op) := by
   cases op with
   | recv t =>
-    simp only [committedIn, List.append_nil, fstep, receive]
+    simp only [committedIn, List.append_nil, fstep, Fifo.receive]
     split
     · exact hg
     · rename_i hc
@@ -225,7 +223,7 @@ theorem fstep_gone (m : Mem) (op : FOp) (c : List Nat) (hg : Gone c m) :
       simp only [List.mem_append, List.mem_singleton, not_or]
       exact ⟨h2, fun e => hnc (e ▸ h1)⟩
   | update b =>
-    simp only [committedIn, List.append_nil, fstep, update, if_true]
+    simp only [committedIn, List.append_nil, fstep, Fifo.update, if_true]
     intro x hx
     rcases List.mem_append.mp hx with hx | hx
     · obtain ⟨h1, h2⟩ := hg x hx
@@ -251,7 +249,7 @@ theorem committedIn_append (a b : List FOp) : committedIn (a ++ b) = committedIn
     contained, whether the node had seen it before or not, however often it is received again -/
 theorem fifo_never_offers_committed_or_duplicate (ops : List FOp) :
     (ops.foldl fstep {}).txs.Nodup ∧ ∀ t ∈ committedIn ops, t ∉ (ops.foldl fstep {}).txs := by
-  have key : ∀ (ops : List FOp) (m : Mem) (c : List Nat), FInv m → Gone c m →
+  have key : ∀ (ops : List FOp) (m : Fifo.Mem) (c : List Nat), FInv m → Gone c m →
       FInv (ops.foldl fstep m) ∧ Gone (c ++ committedIn ops) (ops.foldl fstep m) := by
     intro ops
     induction ops with
@@ -269,9 +267,8 @@ theorem fifo_never_offers_committed_or_duplicate (ops : List FOp) :
 
 /-- as found a committed transaction that is received again is back in the mempool -/
 theorem asFound_committed_accepted_again :
-    ((receive (update ⟨false⟩ (receive {} 7).1 [7]) 7).1.txs) = [7] ∧
-    ((receive (update {} (receive {} 7).1 [7]) 7).1.txs) = [] := by decide
+    ((Fifo.receive (Fifo.update ⟨false⟩ (Fifo.receive {} 7).1 [7]) 7).1.txs) = [7] ∧
+    ((Fifo.receive (Fifo.update {} (Fifo.receive {} 7).1 [7]) 7).1.txs) = [] := by decide
 
-end FifoProps
 
 end AnnVerif.C19
